@@ -76,6 +76,36 @@ theorem ended_is_final (cfg : Joining.SCfg) (fuel : Nat) (m : Joining.Sim) (h : 
   | zero => rfl
   | succ n => unfold Joining.simLoop; simp [h]
 
+/-- **a handler error at stream level is the reported outcome, whatever the stop block says**: when the user handler
+    fails on a block that reaches it (the block passes the step filter and is not above the stop block), that block is
+    the last delivery and the stream ends with the handler's error — also when the block is the stop block itself
+    (the stop-block handler returns the handler's error before it looks at the block number) -/
+theorem stream_handler_error_is_the_outcome (cfg : Joining.SCfg) (m : Joining.Sim) (e : Event)
+    (hf : Joining.passesFilter cfg e.step = true) (hs : ¬ (cfg.stop ≠ 0 ∧ e.blk.num > cfg.stop))
+    (hfail : cfg.failNum = some e.blk.num) :
+    (Joining.Sim.deliver cfg m e).ended = some .handlerErr ∧
+    (Joining.Sim.deliver cfg m e).delivered = m.delivered ++ [e] := by
+  unfold Joining.Sim.deliver
+  have h1 : (!Joining.passesFilter cfg e.step) = false := by simp [hf]
+  have h2 : (cfg.stop != 0 && decide (e.blk.num > cfg.stop)) = false := by
+    cases hb : (cfg.stop != 0 && decide (e.blk.num > cfg.stop)) with
+    | false => rfl
+    | true =>
+      exfalso; apply hs
+      simp only [Bool.and_eq_true, bne_iff_ne, ne_eq, decide_eq_true_eq] at hb
+      exact hb
+  have h3 : (cfg.failNum == some e.blk.num) = true := by rw [hfail]; simp
+  simp [h1, h2, h3]
+
+/-- … and from then on nothing more is delivered -/
+theorem stream_handler_error_is_final (cfg : Joining.SCfg) (m : Joining.Sim) (e : Event) (fuel : Nat)
+    (hf : Joining.passesFilter cfg e.step = true) (hs : ¬ (cfg.stop ≠ 0 ∧ e.blk.num > cfg.stop))
+    (hfail : cfg.failNum = some e.blk.num) :
+    (Joining.simLoop cfg fuel (Joining.Sim.deliver cfg m e)).delivered = m.delivered ++ [e] := by
+  obtain ⟨h1, h2⟩ := stream_handler_error_is_the_outcome cfg m e hf hs hfail
+  rw [ended_is_final cfg fuel _ (by rw [h1]; rfl)]
+  exact h2
+
 /-- **a handler error inside the fork-aware handler is returned at once** (C01) -/
 theorem forkable_handler_error (cfg : Forkable.Config) (s : Forkable.FState) (b : Blk) (k : Nat)
     (h : k < (Forkable.processBlock cfg s b none).2.1.length) :
